@@ -139,3 +139,19 @@ def compare_reads(stream, model, reqs, res: dict, mech: str, byte_cap: int = 48 
 
 def crossing_count(reqs, unit: int) -> int:
     return sum(1 for o, n in reqs if n > 0 and o // unit != (o + n - 1) // unit)
+
+
+def triangulate(rng, ref_model, model, what: str, n: int = 8) -> None:
+    """Writer self-check: an independent naive reference reader over the written bytes must agree with the content
+    model. A disagreement blames the harness (AssertionError -> inconclusive), never the repository."""
+    size = model.size
+    if ref_model.size != size:
+        raise AssertionError(f"triangulation ({what}): reference reader size {ref_model.size} != model size {size}")
+    for _ in range(n):
+        if size <= 0:
+            return
+        off = rng.randrange(0, size)
+        ln = rng.randrange(1, min(size - off, 200_000) + 1)
+        a, b = ref_model.expected(off, ln), model.expected(off, ln)
+        if a != b:
+            raise AssertionError(f"triangulation ({what}): reference reader and content model disagree at offset {off} length {ln}")
